@@ -58,6 +58,9 @@ type Case struct {
 	Level string `json:"level"` // map | struct | handler
 	D     Decl   `json:"decl"`
 	Q     Req    `json:"req"`
+	// second parameter of the same operation (pair sweep only)
+	D2 *Decl `json:"decl2,omitempty"`
+	Q2 *Req  `json:"req2,omitempty"`
 }
 
 func (d Decl) in() string {
@@ -229,11 +232,18 @@ func decoyText(d Decl) string {
 // rawRequest renders the case. ok=false when the combination cannot be put on
 // the wire (e.g. an empty path segment) - such combinations are not enumerated.
 func rawRequest(d Decl, q Req) (raw string, ok bool) {
+	return rawRequestMulti([]Decl{d}, []Req{q})
+}
+
+// rawRequestMulti renders one request carrying several parameters (at most one
+// path parameter; form parameters must agree on the encoding).
+func rawRequestMulti(ds []Decl, qs []Req) (raw string, ok bool) {
 	method := "GET"
 	target := "/op"
 	var query []string
 	var hdr []string
-	body := ""
+	var formU []string
+	var formM strings.Builder
 	ct := ""
 	add := func(loc, name, text string) {
 		switch loc {
@@ -243,55 +253,67 @@ func rawRequest(d Decl, q Req) (raw string, ok bool) {
 			hdr = append(hdr, name+": "+text+"\r\n")
 		}
 	}
-	switch d.Loc {
-	case "path":
-		if len(q.Texts) != 1 || !pathTextOK(string(q.Texts[0])) {
+	paths := 0
+	for i, d := range ds {
+		q := qs[i]
+		switch d.Loc {
+		case "path":
+			paths++
+			if paths > 1 || len(q.Texts) != 1 || !pathTextOK(string(q.Texts[0])) {
+				return "", false
+			}
+			target += "/" + url.PathEscape(string(q.Texts[0]))
+		case "query", "header":
+			for _, t := range q.Texts {
+				if d.Loc == "header" && !headerTextOK(string(t)) {
+					return "", false
+				}
+				add(d.Loc, q.Wire, string(t))
+			}
+		case "formU":
+			if ct != "" && ct != "application/x-www-form-urlencoded" {
+				return "", false
+			}
+			method = "POST"
+			ct = "application/x-www-form-urlencoded"
+			for _, t := range q.Texts {
+				formU = append(formU, url.QueryEscape(q.Wire)+"="+url.QueryEscape(string(t)))
+			}
+		case "formM":
+			if ct != "" && ct == "application/x-www-form-urlencoded" {
+				return "", false
+			}
+			method = "POST"
+			ct = "multipart/form-data; boundary=" + boundary
+			for i, t := range q.Texts {
+				if strings.Contains(string(t), boundary) {
+					return "", false
+				}
+				if d.Type == "file" {
+					fmt.Fprintf(&formM, "--%s\r\nContent-Disposition: form-data; name=%q; filename=\"f%d.txt\"\r\nContent-Type: text/plain\r\n\r\n%s\r\n", boundary, q.Wire, i, string(t))
+				} else {
+					fmt.Fprintf(&formM, "--%s\r\nContent-Disposition: form-data; name=%q\r\n\r\n%s\r\n", boundary, q.Wire, string(t))
+				}
+			}
+		default:
 			return "", false
 		}
-		target += "/" + url.PathEscape(string(q.Texts[0]))
-	case "query", "header":
-		for _, t := range q.Texts {
-			if d.Loc == "header" && !headerTextOK(string(t)) {
-				return "", false
+		if q.Decoy {
+			dt := decoyText(d)
+			if d.Loc != "query" {
+				add("query", d.Name, dt)
 			}
-			add(d.Loc, q.Wire, string(t))
-		}
-	case "formU":
-		method = "POST"
-		ct = "application/x-www-form-urlencoded"
-		parts := []string{"zz=1"}
-		for _, t := range q.Texts {
-			parts = append(parts, url.QueryEscape(q.Wire)+"="+url.QueryEscape(string(t)))
-		}
-		body = strings.Join(parts, "&")
-	case "formM":
-		method = "POST"
-		ct = "multipart/form-data; boundary=" + boundary
-		var b strings.Builder
-		b.WriteString("--" + boundary + "\r\nContent-Disposition: form-data; name=\"zz\"\r\n\r\n1\r\n")
-		for i, t := range q.Texts {
-			if strings.Contains(string(t), boundary) {
-				return "", false
-			}
-			if d.Type == "file" {
-				fmt.Fprintf(&b, "--%s\r\nContent-Disposition: form-data; name=%q; filename=\"f%d.txt\"\r\nContent-Type: text/plain\r\n\r\n%s\r\n", boundary, q.Wire, i, string(t))
-			} else {
-				fmt.Fprintf(&b, "--%s\r\nContent-Disposition: form-data; name=%q\r\n\r\n%s\r\n", boundary, q.Wire, string(t))
+			if d.Loc != "header" && headerNameOK(d.Name) {
+				add("header", d.Name, dt)
 			}
 		}
-		b.WriteString("--" + boundary + "--\r\n")
-		body = b.String()
-	default:
-		return "", false
 	}
-	if q.Decoy {
-		dt := decoyText(d)
-		if d.Loc != "query" {
-			add("query", d.Name, dt)
-		}
-		if d.Loc != "header" {
-			add("header", d.Name, dt)
-		}
+	body := ""
+	switch {
+	case ct == "application/x-www-form-urlencoded":
+		body = strings.Join(append([]string{"zz=1"}, formU...), "&") // an unrelated field is always there
+	case ct != "":
+		body = "--" + boundary + "\r\nContent-Disposition: form-data; name=\"zz\"\r\n\r\n1\r\n" + formM.String() + "--" + boundary + "--\r\n"
 	}
 	if len(query) > 0 {
 		target += "?" + strings.Join(query, "&")
@@ -312,6 +334,16 @@ func rawRequest(d Decl, q Req) (raw string, ok bool) {
 func pathTextOK(t string) bool {
 	// an empty segment does not route, "." and ".." are removed by path cleaning (C01's business)
 	return t != "" && t != "." && t != ".."
+}
+
+func headerNameOK(n string) bool {
+	for i := 0; i < len(n); i++ {
+		c := n[i]
+		if !(c >= 'a' && c <= 'z' || c >= 'A' && c <= 'Z' || c >= '0' && c <= '9' || c == '-' || c == '_') {
+			return false
+		}
+	}
+	return n != ""
 }
 
 func headerTextOK(t string) bool {
